@@ -20,7 +20,7 @@ import xarray as xr
 
 import facegrid as fg
 from c03 import app, expressible, facing_side, lin, neighbours, normal, table_of
-from common import dyadic, enc_rat, exc_kind
+from common import dyadic, enc_rat, exc_kind, fillv
 
 RULE = ("decompositions Kx,Ky in 1..3 (thorough ..4) of a periodic/open domain, per-face rotations with all "
         "junctions non-reversed + expressible, N in 2..5, both components, diff and interp, rules on open "
@@ -74,7 +74,7 @@ def gen_case(rng, tier, i):
         N = rng.randint(2, 5)
         return {"kind": "simple", "N": N, "ny": rng.randint(2, 4),
                 "func": rng.choice(["diff", "interp"]), "comp": rng.choice(["X", "Y"]),
-                "rule": rng.choice(["fill", "extend", "periodic"]), "fill": dyadic(rng),
+                "rule": rng.choice(["fill", "extend", "periodic"]), "fill": fillv(rng),
                 "u": [dyadic(rng, -16, 16, 1) for _ in range(N * 4)], "v": [dyadic(rng, -16, 16, 1) for _ in range(N * 4)],
                 "with_other": rng.random() < 0.7}
     kmax = 4 if tier == "thorough" else 3
@@ -93,7 +93,7 @@ def gen_case(rng, tier, i):
     order_seed = rng.randrange(1 << 30)
     return {"kind": "faces", "Kx": Kx, "Ky": Ky, "N": N, "per": per, "orient": orient, "extra": extra,
             "U": U, "V": V, "func": rng.choice(["diff", "interp"]), "comp": rng.choice(["X", "Y"]),
-            "rule": rng.choice(["fill", "extend", "periodic"]), "fill": dyadic(rng), "order_seed": order_seed}
+            "rule": rng.choice(["fill", "extend", "periodic"]), "fill": fillv(rng), "order_seed": order_seed}
 
 
 def glob(case):
